@@ -3,6 +3,11 @@ problem and the default value is emitted so that Gen/Facts_C14.v still type-chec
 import ast
 from harness.common import facts as F
 
+# predicate parameters of add_notfound_view / add_forbidden_view, in signature order (model name: custom)
+DIRECTIVE_PREDS = ['request_method', 'request_param', 'containment', 'xhr', 'accept', 'header', 'path_info', 'custom',
+                   'match_param']
+NOT_FORWARDED_OK = {'append_slash'}      # consumed by the directive itself
+
 DEFAULTS = {
     'hidden_names': ['response', 'exc_info', 'exception'],
     'set_in_with': ['exception', 'exc_info'],
@@ -22,6 +27,7 @@ DEFAULTS = {
     'exc_default_context': 'Exception', 'exc_exception_only': True,
     'default_view_returns_context': True,
     'permissive_checks_predicates': False,
+    'nf_forwards': list(DIRECTIVE_PREDS), 'fb_forwards': list(DIRECTIVE_PREDS),
 }
 
 
@@ -293,9 +299,46 @@ def _permissive(src, v, problems):
         problems.append('_call_view: the body of "if not secure:" is neither the known text nor its repair')
 
 
+def _forwards(src, v, problems):
+    """which of its own parameters each directive hands on to add_view (settings = dict(p=p, ...), settings['p'] = p,
+    view_options.update(dict(p=p, ...))); fail closed when a parameter is not handed on"""
+    m = F.Module(src, 'pyramid/config/views.py')
+    for meth, key in (('add_notfound_view', 'nf_forwards'), ('add_forbidden_view', 'fb_forwards'),
+                      ('add_exception_view', None)):
+        fn = m.find('ViewsConfiguratorMixin.' + meth)
+        if fn is None:
+            problems.append('%s not found' % meth)
+            continue
+        params = [a.arg for a in fn.args.args if a.arg != 'self'] + [a.arg for a in fn.args.kwonlyargs]
+        fwd = set()
+        for n in ast.walk(fn):
+            if isinstance(n, ast.Call) and _name(n.func) == 'dict':
+                for k in n.keywords:
+                    if k.arg is not None and _name(k.value) == k.arg:
+                        fwd.add(k.arg)
+            x = _sub_assign(n, 'settings') if isinstance(n, ast.Assign) else None
+            if x and x[0] == x[1]:
+                fwd.add(x[0])
+        # the call that ends the directive must pass the collected settings on
+        last = fn.body[-1]
+        ok = isinstance(last, ast.Return) and isinstance(last.value, ast.Call) and isinstance(last.value.func, ast.Attribute) \
+            and last.value.func.attr == 'add_view' and not last.value.args and len(last.value.keywords) == 1 \
+            and last.value.keywords[0].arg is None and _name(last.value.keywords[0].value) in ('settings', 'view_options')
+        if not ok:
+            problems.append('%s: does not end in "return self.add_view(**settings)"' % meth)
+        if fn.args.kwarg is None:
+            problems.append('%s: no **view_options' % meth)
+        missing = [p for p in params if p not in fwd and p not in NOT_FORWARDED_OK]
+        if missing:
+            problems.append('%s: parameter(s) %s are not passed on to add_view' % (meth, ', '.join(missing)))
+        if key:
+            got = set('custom' if p == 'custom_predicates' else p for p in fwd)
+            v[key] = [p for p in DIRECTIVE_PREDS if p in got]
+
+
 def extract(src, problems):
     v = dict(DEFAULTS)
-    for f in (_iev, _tweens, _config, _add_view, _permissive):
+    for f in (_iev, _tweens, _config, _add_view, _permissive, _forwards):
         try:
             f(src, v, problems)
         except Exception as e:          # fail closed
@@ -305,7 +348,7 @@ def extract(src, problems):
 
 def emit(v):
     out = [F.HEADER]
-    for k in ('hidden_names', 'set_in_with', 'set_after', 'default_excview_contexts'):
+    for k in ('hidden_names', 'set_in_with', 'set_after', 'default_excview_contexts', 'nf_forwards', 'fb_forwards'):
         out.append('Definition %s : list text := %s.\n' % (k, F.coq_texts(v[k])))
     for k in ('exc_view_name', 'exc_classifier', 'iev_none_raises', 'iev_reraise_catches', 'handler_catches',
               'tween_catches', 'nf_context', 'fb_context', 'exc_default_context'):
